@@ -85,8 +85,8 @@ Section Distinct.
   Qed.
   Lemma dlocs_plain k ns ls : length ns = length ls -> dlocs (plain_decls k ns ls) = ls.
   Proof. intros H. unfold dlocs, plain_decls. rewrite map_map. cbn [d_loc]. apply (combine_snd ns ls H). Qed.
-  Lemma dlocs_local : forall ns ls ats es lc,
-    length ns = length ls -> length ns = length ats -> dlocs (local_decls ns ls ats es lc) = ls.
+  Lemma dlocs_local il : forall ns ls ats es lc,
+    length ns = length ls -> length ns = length ats -> dlocs (local_decls il ns ls ats es lc) = ls.
   Proof.
     induction ns as [|n ns' IH]; intros ls ats es lc Hl Ha; destruct ls as [|l ls']; try discriminate; [reflexivity|].
     destruct ats as [|a ats']; [discriminate|]. cbn [local_decls]. cbn in Hl, Ha.
@@ -94,7 +94,7 @@ Section Distinct.
   Qed.
   Lemma rlocs_adds ns ls : rlocs (adds ns ls) = [].
   Proof. revert ls. induction ns as [|n r IH]; intros ls; [reflexivity|]. destruct ls; [reflexivity|]. cbn. apply IH. Qed.
-  Lemma rlocs_local_rest lc : forall ns ls ats, rlocs (local_rest ns ls ats lc) = [].
+  Lemma rlocs_local_rest il lc : forall ns ls ats, rlocs (local_rest il ns ls ats lc) = [].
   Proof.
     induction ns as [|n r IH]; intros ls ats; [reflexivity|]. destruct ls; [reflexivity|]. destruct ats; [reflexivity|].
     cbn. apply IH.
@@ -197,7 +197,7 @@ Section Distinct.
       rewrite !rlocs_app, rlocs_scope. apply (IL_seq a c1 b); auto; [|lia]. apply (IL_seq c1 c2 b); auto.
   Qed.
 
-  Lemma rlocs_local_add_acts : forall es ns ls ats, rlocs (local_add_acts ns ls ats es) = [].
+  Lemma rlocs_local_add_acts il : forall es ns ls ats, rlocs (local_add_acts il ns ls ats es) = [].
   Proof.
     induction es as [|e es' IH]; intros ns ls ats; cbn [local_add_acts]; [apply rlocs_local_rest|].
     destruct ns as [|n ns']; [reflexivity|]. destruct ls as [|l ls']; [reflexivity|].
@@ -408,15 +408,19 @@ Section Distinct.
              end.
       destruct (chain_app W _ _ _ _ Hch) as [c0 [C1 C2]].
       pose proof (chain_le W _ _ _ C1) as L1. pose proof (chain_le W _ _ _ C2) as L2.
-      destruct (exps_D es _ _ IHe ltac:(assumption) C2) as [D1 _]. split.
-      + cbn [d_stat]. rewrite dlocs_app, (dlocs_local ns ls ats es None) by assumption.
-        eapply IL_perm; [apply Permutation_app_comm|]. apply (IL_seq a c0 b); auto. apply IL_ids. exact C1.
+      destruct (LL.local_marks_chain W ns ls es l c0 b C2) as (c1 & c2 & Lc1 & Lc2 & C3 & _).
+      pose proof (chain_le W _ _ _ C3) as L3.
+      destruct (exps_D es _ _ IHe ltac:(assumption) C3) as [D1 _]. split.
+      + cbn [d_stat]. rewrite dlocs_app, (dlocs_local _ ns ls ats es None) by assumption.
+        eapply IL_perm; [apply Permutation_app_comm|]. apply (IL_seq a c0 b); auto; [apply IL_ids; exact C1|].
+        exact (IL_widen _ _ _ _ _ D1 Lc1 Lc2).
       + intros flv slv g.
         repeat match goal with
                | H : (_ <=? _)%nat = true |- _ => apply Nat.leb_le in H
                end.
-        exact (IL_widen _ _ _ _ _ (local_go_R flv slv l es ns ls ats g c0 b ltac:(assumption) ltac:(assumption) ltac:(assumption)
-                                              IHe ltac:(assumption) C2) L1 (Z.le_refl b)).
+        assert (La1 : a <= c1) by lia.
+        exact (IL_widen _ _ _ _ _ (local_go_R flv slv l es ns ls ats g c1 c2 ltac:(assumption) ltac:(assumption) ltac:(assumption)
+                                              IHe ltac:(assumption) C3) La1 Lc2).
     - (* SLocalFunc *) intros n nl f l [_ IHf] Hf a b Hch. cbn [frag_stat] in Hf. bs Hf.
       destruct f; try discriminate. cbn [PDF LS.m_stat] in *.
       rewrite !app_assoc in Hch. destruct (chain_region W _ _ _ _ Hch) as [Hc [H2 [H3 H4]]].
